@@ -163,15 +163,11 @@ func CheckSecrets(c SecretsCase) (hx.Vs, *secretsInfo) {
 	defer fx.Close()
 	format := fx.Format()
 
-	// cache values seen after every step: name -> distinct values
-	type cached struct {
-		step int
-		name string
-		val  []byte
-	}
-	var cacheSeen []cached
+	// cache values seen after every step: name -> distinct values, with the life-cycle state of the handle
+	// (reopened / reset how often) at the time the value was first seen
+	var cacheSeen []cachedEntry
 	names := map[string]bool{}
-	probeCache := func(step int) {
+	probeCache := func(applied int) {
 		g, ok := fx.KS().(cacheGetter)
 		if !ok || fx.dir == "" || format != "v1" {
 			return
@@ -180,7 +176,12 @@ func CheckSecrets(c SecretsCase) (hx.Vs, *secretsInfo) {
 			names[n] = true
 			names[filepath.Join(fx.dir, n)] = true // public keys are cached under their full path
 		}
+		sorted := make([]string, 0, len(names))
 		for n := range names {
+			sorted = append(sorted, n)
+		}
+		sort.Strings(sorted)
+		for _, n := range sorted {
 			if v, ok := g.Get(n); ok && len(v) > 0 {
 				dup := false
 				for _, s := range cacheSeen {
@@ -190,17 +191,17 @@ func CheckSecrets(c SecretsCase) (hx.Vs, *secretsInfo) {
 					}
 				}
 				if !dup {
-					cacheSeen = append(cacheSeen, cached{step, n, append([]byte(nil), v...)})
+					cacheSeen = append(cacheSeen, cachedEntry{applied, n, append([]byte(nil), v...), stateAfter(c.Ops, applied)})
 				}
 			}
 		}
 	}
-	hooks := kshist.Hooks{AfterStep: func(step int, op kshist.Op, r *kshist.Runner) { probeCache(step) }}
+	hooks := kshist.Hooks{AfterStep: func(step int, op kshist.Op, r *kshist.Runner) { probeCache(step + 1) }}
 	var res *kshist.Result
 	if hx.Guard(&vs, "history/"+format, func() { res = kshist.Run(fx, c.Ops, hooks) }) {
 		return vs, info
 	}
-	probeCache(len(c.Ops))
+	probeCache(res.Steps)
 	if res.Discard != "" {
 		info.classes = append(info.classes, "discarded")
 		return vs, info
@@ -268,7 +269,7 @@ func CheckSecrets(c SecretsCase) (hx.Vs, *secretsInfo) {
 	info.cacheEntries = len(cacheSeen)
 	for _, s := range cacheSeen {
 		if hit, ok := scan(s.val, secrets); ok {
-			vs.Add("clear-secret-cached@"+format, "%s: after step %d the key cache holds under %q: %s", c.Fixture, s.step, clean(s.name), hit)
+			vs.Add("clear-secret-cached@"+format, "%s: after %d operations the key cache holds under %q: %s", c.Fixture, s.step, clean(s.name), hit)
 			return vs, info
 		}
 	}
@@ -280,6 +281,14 @@ func CheckSecrets(c SecretsCase) (hx.Vs, *secretsInfo) {
 					info.classes = append(info.classes, "control:public-key-found-in-cache")
 				}
 			}
+		}
+	}
+	// 1c'. what a cache entry is worth without the cache key (cachekey_test.go)
+	if fx.Cached() && len(cacheSeen) > 0 {
+		ck := checkCacheKeys(&vs, c, fx, cacheSeen, secrets, publics)
+		info.classes = append(info.classes, ck.classes...)
+		if len(vs) > 0 {
+			return vs, info
 		}
 	}
 	// 1d. export bundles (everything, private keys included)
@@ -387,7 +396,7 @@ func TestNoClearSecrets(t *testing.T) {
 		fixture := fixture
 		t.Run(strings.NewReplacer("/", "-", "=", "-").Replace(fixture), func(t *testing.T) {
 			name := secretsTest(fixture)
-			R.Rule(name, "kshist histories (1-20 operations, 6 key kinds, 1-3 client ids) on capture-wrapped storage (v1: filesystem.Storage wrapper, cache off/1/unbounded; v2: back-end wrapper over the in-memory and directory back ends); every private/symmetric key value is learnt by reading it through the API; none may occur raw, in hex or in base64 (nor its last 24 bytes raw/hex) in any byte sequence handed to WriteFile/Put, in the stored objects, in the values of the v1 key cache (probed after every step through KeyStore.Get for every stored name), or in an export bundle of all keys; positive control: generated public keys must be found in the captured writes; file modes 0600/0700 on real directories. Non-trivial = at least one secret learnt and at least one captured write scanned")
+			R.Rule(name, "kshist histories (1-20 operations, 6 key kinds, 1-3 client ids) on capture-wrapped storage (v1: filesystem.Storage wrapper, cache off/1/unbounded; v2: back-end wrapper over the in-memory and directory back ends); every private/symmetric key value is learnt by reading it through the API; none may occur raw, in hex or in base64 (nor its last 24 bytes raw/hex) in any byte sequence handed to WriteFile/Put, in the stored objects, in the values of the v1 key cache (probed after every step through KeyStore.Get for every stored name), or in an export bundle of all keys; every distinct sealed cache entry, in whatever state of the handle it was made (new, reopened, reset once or more: the histories contain reset and reopen operations followed by reads), must be worthless without the cache key: (a) it does not open as a Secure Cell under a key that needs no secret (buffer filled with 0x00/0xff in sizes 1-64, counting patterns, ids / cache names / kinds / fixed context names raw and zero-padded, public keys of the case; for the first entry of every handle state also a key-sized buffer of any byte value) with no context, the owner id, the cache / key file name or a fixed context name; (b) planted under its name in the cache of an unrelated keystore (other master key, empty directory, same cache size, same number of Reset calls) it does not make that keystore return the key (control: the read error changes from not-found to a decryption error); positive control: generated public keys must be found in the captured writes; file modes 0600/0700 on real directories. Non-trivial = at least one secret learnt and at least one captured write scanned")
 			q, th := secretsCounts(fixture)
 			hx.Checks(q, th)
 			flag.Set("rapid.shrinktime", "10s") // cases are small; every evaluation builds a keystore
